@@ -29,7 +29,7 @@ PROFILE = {"n_states": (2, 5), "n_events": (1, 3), "extra_transitions": (1, 6), 
 
 def owns(rule, flags):
     # after an injected failure the processing discipline must still hold for the following sends
-    return rule.startswith("C03.") or bool(flags.get("after_failure"))
+    return rule.startswith("C03.") or bool(flags.get("after_failure")) or rule == "C04.quiescence"
 
 
 def make_case(rng, i):
